@@ -1,18 +1,22 @@
 // shim operands of the typed arms
-#[derive(Clone, Copy)] pub struct TS(pub i64);
+// a point in time: whole seconds plus a sub-second part (file mtimes have one; literal bounds are whole seconds).
+// and_utc().timestamp() is the whole-second value, as for chrono's NaiveDateTime; ordering is by (seconds, nanos).
+#[derive(Clone, Copy, PartialEq, Eq, PartialOrd, Ord)] pub struct TS(pub i64, pub u32);
 impl TS { pub fn and_utc(self) -> TS { self } pub fn timestamp(self) -> i64 { self.0 } }
 #[derive(Clone, Copy)]
-pub struct FV { pub i: i64, pub f: f64, pub b: bool, pub d0: i64, pub d1: i64 }
+pub struct FV { pub i: i64, pub f: f64, pub b: bool, pub d0: i64, pub d1: i64, pub nanos: u32 }
 impl FV {
     /// an integer-typed value: to_float is exact conversion
-    pub fn int(i: i64) -> FV { FV { i, f: i as f64, b: i == 1, d0: 0, d1: 0 } }
+    pub fn int(i: i64) -> FV { FV { i, f: i as f64, b: i == 1, d0: 0, d1: 0, nanos: 0 } }
     /// a float-typed value: to_int truncates (Variant::from_float stores `value as i64`)
-    pub fn float(f: f64) -> FV { FV { i: f as i64, f, b: f == 1.0, d0: 0, d1: 0 } }
-    pub fn boolean(b: bool) -> FV { FV { i: b as i64, f: 0.0, b, d0: 0, d1: 0 } }
+    pub fn float(f: f64) -> FV { FV { i: f as i64, f, b: f == 1.0, d0: 0, d1: 0, nanos: 0 } }
+    pub fn boolean(b: bool) -> FV { FV { i: b as i64, f: 0.0, b, d0: 0, d1: 0, nanos: 0 } }
     /// a date value / literal: the closed interval [d0, d1] of seconds (d0 == d1 for a column value)
-    pub fn date(d0: i64, d1: i64) -> FV { FV { i: 0, f: 0.0, b: false, d0, d1 } }
+    pub fn date(d0: i64, d1: i64) -> FV { FV { i: 0, f: 0.0, b: false, d0, d1, nanos: 0 } }
+    /// an entry time with a sub-second part
+    pub fn time(t: i64, nanos: u32) -> FV { FV { i: 0, f: 0.0, b: false, d0: t, d1: t, nanos } }
     pub fn to_int(&self) -> i64 { self.i }
     pub fn to_float(&self) -> f64 { self.f }
     pub fn to_bool(&self) -> bool { self.b }
-    pub fn to_datetime(&self) -> (TS, TS) { (TS(self.d0), TS(self.d1)) }
+    pub fn to_datetime(&self) -> (TS, TS) { (TS(self.d0, self.nanos), TS(self.d1, self.nanos)) }
 }
